@@ -744,7 +744,22 @@ pub fn gen_custom_string(rng: &mut Rng, f: &CustomFontD) -> String {
     for _ in 0..n {
         match rng.below(10) {
             0 => s.push('\n'),
-            1 => s.push('?'), // unmapped
+            1 => {
+                // unmapped: below/above the mapped range, and code points that alias a mapped
+                // character when the upper bits are lost (c + k * 0x10000, c + 0x100)
+                let a = 'a' as u32;
+                let c = match rng.below(8) {
+                    0 | 1 => '?' as u32,
+                    2 => a - 1,
+                    3 => a + glyphs,
+                    4 => a + rng.u32r(0, glyphs - 1) + 0x10000 * rng.u32r(1, 16),
+                    5 => a + glyphs - 1 + 0x10000,
+                    6 => a + rng.u32r(0, glyphs - 1) + 0x100 * rng.u32r(1, 3),
+                    _ => *rng.pick(&[0x10FFFFu32, 0x20, 0x41, 0xFFFD, 0x1F600, 0x1]),
+                };
+                let c = char::from_u32(c).unwrap_or('?');
+                s.push(if (a..a + glyphs).contains(&(c as u32)) { '?' } else { c });
+            }
             _ => s.push(char::from_u32('a' as u32 + rng.u32r(0, glyphs - 1)).unwrap()),
         }
     }
